@@ -54,6 +54,24 @@ Theorem C14_abf_czar_gather : forall (A : Type) (G : GrpOps A), GrpLaws G ->
 Proof. exact @czar_gather_sum. Qed.
 Print Assumptions C14_abf_czar_gather.
 
+(* replica_share_CZAR() runs between exchanges (from write_output_files): it must leave global, snapshot and local
+   grids and the z grids of every walker untouched, whatever they hold; only replica 0's gathered grids change,
+   to the sum of all z grids. *)
+Theorem C14_abf_czar_gather_frame : forall (A : Type) (G : GrpOps A), GrpLaws G -> forall (ws : list (ewalker (A:=A))),
+  map e_w (czar_gather_step G ws) = map e_w ws /\ map e_z (czar_gather_step G ws) = map e_z ws /\
+  (forall r others j, ws = r :: others ->
+     exists r', czar_gather_step G ws = r' :: others /\ e_gz r' j = msum G (map e_z ws) j).
+Proof. exact @czar_gather_frame. Qed.
+Print Assumptions C14_abf_czar_gather_frame.
+
+(* A restart through a state file of the repaired code (last_* saved) is the identity on the three grids, at any
+   point of a run -- which is why C14_abf_union_once and C14_abf_interleavings_union_once quantify over traces with
+   ERestart / ARestart ANYWHERE, not only at exchange boundaries. *)
+Theorem C14_abf_restart_identity : forall (A : Type) t (w : walker (A:=A)),
+  wG (w_restart t w) = wG w /\ wL (w_restart t w) = wL w /\ wLoc (w_restart t w) = wLoc w.
+Proof. exact @restart_identity. Qed.
+Print Assumptions C14_abf_restart_identity.
+
 (* Walkers that hold the same shared_last_step agree on which steps are exchange steps, and an exchange
    leaves all of them with the same shared_last_step (no walker waits for a round the others skip). *)
 Theorem C14_abf_exchange_points_agree : forall (A : Type) (G : GrpOps A) freq t t' (ws : list (walker (A:=A))) w w',
